@@ -294,6 +294,39 @@ def main(a0, a1):
     zs[0][1] = zs[1][1] + 1
     return (a0[0], a0[1], q[0], cp[0], cp[1], r, [x for x in ys], zs[1][1])
 ''', ['L2', 'R']),
+    ('tuple-holding-list-to-callee', '''
+@fp.fpy
+def h0(p0, p1):
+    buf, k = p0
+    buf[k] = buf[k] + p1
+    (row, _), w = (p0, p1)
+    row[0] = w
+    return buf[k]
+
+@fp.fpy
+def main(a0, a1):
+    t = (a0, 1)
+    r = h0(t, a1)
+    s = h0((a0[:], 1), a1)
+    u = (a0, (a0, a1))
+    _, (ys, _) = u
+    ys[1] = ys[1] * 2
+    return (r, s, a0[0], a0[1], [x for x in a0])
+''', ['L2', 'R']),
+    ('augmented-ops', '''
+@fp.fpy
+def main(a0, a1):
+    with fp.MPFloatContext(4, fp.RM.{rm1}):
+        x = a0
+        x %= a1
+        y = a0 % a1
+        z = a0
+        z /= a1
+        w = a1
+        w **= 2
+        v = fp.fmod(a0, a1)
+    return (x, y, z, w, v, a0 ** 3)
+''', ['R', 'R']),
     ('comprehension-sum-under-ctx', '''
 @fp.fpy
 def main(a0, a1):
